@@ -315,19 +315,20 @@ func (q *qelim) nnf(t *smt.Term, pos bool) *smt.Term {
 				parts = append(parts, q.nnf(c.Subst(t.Args[0], m), pos))
 				return
 			}
-			cset := q.cands
-			if extra := q.matches(t.Args[0], t.Vars[i]); len(extra) > 0 {
-				have := map[int]bool{}
-				cset = nil
-				for _, x := range q.cands {
+			// candidates: E-matching against ground applications, plus the
+			// designated candidate terms (loop counters, extensionality witnesses)
+			var cset []*smt.Term
+			have := map[int]bool{}
+			for _, x := range q.matches(t.Args[0], t.Vars[i]) {
+				if !have[x.ID] {
 					have[x.ID] = true
 					cset = append(cset, x)
 				}
-				for _, x := range extra {
-					if !have[x.ID] {
-						have[x.ID] = true
-						cset = append(cset, x)
-					}
+			}
+			for _, x := range q.cands {
+				if !have[x.ID] {
+					have[x.ID] = true
+					cset = append(cset, x)
 				}
 			}
 			for _, cand := range cset {
@@ -343,10 +344,9 @@ func (q *qelim) nnf(t *smt.Term, pos bool) *smt.Term {
 			}
 		}
 		rec(0, map[*smt.Term]*smt.Term{})
-		if pos {
-			return c.And(parts...)
-		}
-		return c.Or(parts...)
+		// a universal (forall asserted, or exists refuted) is weakened to the
+		// conjunction of its instances
+		return c.And(parts...)
 	}
 	// quantifier under a non-boolean operator: leave to the solver
 	if pos {
@@ -519,10 +519,14 @@ func (e *Exec) Emit(o *Obligation) []*smt.Term {
 		for _, t := range raw {
 			out = append(out, q.nnf(t, true))
 		}
-		for _, s := range q.newSk {
-			if !seen[s] {
-				seen[s] = true
-				q.cands = append(q.cands, s)
+		// skolems reach later instantiations through E-matching (they occur in
+		// ground applications of the previous round), not as blanket candidates
+		if round == 0 {
+			for _, s := range q.newSk {
+				if !seen[s] {
+					seen[s] = true
+					q.cands = append(q.cands, s)
+				}
 			}
 		}
 	}
